@@ -11,7 +11,7 @@ from .c19 import _setup, _geti
 
 ORACLE = 'Implementation.execute returns normally: every failure has become a BASIC error (ERR), no host exception escapes'
 BOUNDS = {'statements': 'the catalogue CATALOGUE below: direct-mode statements and functions whose arguments are the '
-                        'integer variables A%, B%, C%', 'values': 'every 16-bit value of A%, B%, C% (symbolic)',
+                        'integer variables A%, B%, C%', 'values': 'every 16-bit value of A%, B%, C% (symbolic); for the f-* entries every 32-bit pattern of the single S!',
           'session': 'Implementation() with its documented default arguments except output_streams=None, '
                      'input_streams=None',
           'outside': 'all other statements, programs, typed input, loaded files, floating-point and string '
@@ -38,6 +38,11 @@ CATALOGUE = {
     'peek-bios': b'DEF SEG=0: R%=PEEK(1024+(C% AND 127))',
     'peek-video': b'DEF SEG=&HB800: R%=PEEK(B% AND 255)',
     'peek-rom': b'DEF SEG=&HF000: R%=PEEK(&HFF00+(B% AND 255))',
+    'peek-rom-notice': b'DEF SEG=&HF000: R%=PEEK(&HE000+(B% AND 127))',
+    'peek-rom-font': b'DEF SEG=&HF000: R%=PEEK(&HFA60+(B% AND 31))',
+    'peek-rom-font-end': b'DEF SEG=&HF000: R%=PEEK(&HFE60+(C% AND 31))',
+    'peek-ram-font': b'DEF SEG=&HC000: R%=PEEK(B% AND 31)',
+    'peek-ram-font-end': b'DEF SEG=&HC000: R%=PEEK(&H3F0+(C% AND 31))',
     'out': b'OUT A%,1',
     'screen-fn-row': b'R%=SCREEN(A%,1,C%)',
     'screen-fn-col': b'R%=SCREEN(1,B%)',
@@ -79,6 +84,17 @@ CATALOGUE = {
     'on-key': b'ON KEY(A%) GOSUB 0',
     'palette': b'PALETTE A%,B%',
     'noise': b'NOISE A%,B%,C%',
+    # single-precision argument S! (all 2^32 bit patterns)
+    'f-string-char': b'R$=STRING$(2,S!)',
+    'f-chr': b'R$=CHR$(S!)',
+    'f-locate': b'LOCATE S!',
+    'f-space': b'R$=SPACE$(S!)',
+    'f-mid': b'R$=MID$("abcdef",S!)',
+    'f-on-goto': b'ON S! GOTO 10,20',
+    'f-array': b'Q%(S!,0)=1',
+    'f-color': b'COLOR S!',
+    'f-hex': b'R$=HEX$(S!)',
+    'f-int-assign': b'R%=S!',
 }
 
 SLOW = ()
@@ -89,11 +105,14 @@ def body(h):
     impl = session.mk_impl(h)
     impl.execute(b'10 REM x')
     impl.execute(b'20 REM y')
-    impl.execute(b'A%=0:B%=0:C%=0:R%=0:R!=0:R$="":DIM Q%(1,1)')
+    impl.execute(b'A%=0:B%=0:C%=0:R%=0:R!=0:S!=0:R$="":DIM Q%(1,1)')
     raws = {}
-    for n in (b'A%', b'B%', b'C%'):
-        raws[n] = h.bytes(n[:1].decode().lower(), 2)
-        session.poke_int(h, impl, n, raws[n])
+    if h.params['name'].startswith('f-'):
+        session.poke_int(h, impl, b'S!', h.bytes('s', 4))
+    else:
+        for n in (b'A%', b'B%', b'C%'):
+            raws[n] = h.bytes(n[:1].decode().lower(), 2)
+            session.poke_int(h, impl, n, raws[n])
     res = h.call(impl.execute, stmt)
     h.require('only-basic-errors-escape', res[0] == 'ok', res)
     err = impl.interpreter.error_num
